@@ -186,6 +186,13 @@ def answer? (ctx : Ctx) (H : Hashes) (_stone6 : Bool) (toks : List String) : Opt
     match rest.drop 10 with
     | [z, a, sz] => pure (out hx (pi.publicMemoryProductRatio (← felt? z) (← felt? a) (← felt? sz)))
     | _ => none
+  | "pihash_seq" :: rest =>
+    -- the same OBJECT hashed, overwritten field by field, hashed again: a pure function of the second value
+    if rest.length ≠ 21 then none else do
+    let pi ← parsePI? ((rest.drop 10).take 10)
+    match rest.drop 20 with
+    | [nf] => pure ("ok " ++ hx (pi.getHash H _stone6 (← felt? nf)))
+    | _ => none
   | "pihash" :: rest =>
     if rest.length ≠ 11 then none else do
     let pi ← parsePI? (rest.take 10)
